@@ -162,6 +162,10 @@ func (flex *FlexEncoder03) encodeFlexFecPacket(fecPacketIndex uint32, mediaBaseS
 			tmpMediaPacketBuf = make([]byte, packetSize)
 		}
 
+		// MarshalTo writes only the last padding octet (the count): clear the buffer so that whatever an earlier
+		// packet left in the reused scratch buffer is not XORed in as this packet's padding.
+		clear(tmpMediaPacketBuf[:packetSize])
+
 		n, err := mediaPacket.MarshalTo(tmpMediaPacketBuf[:packetSize])
 		if n == 0 || err != nil {
 			return rtp.Packet{}, false
